@@ -127,8 +127,8 @@ Fixpoint name_from (own : nat) (l : list source) : list (option string) * nat :=
   | _ :: r => let (r', n) := name_from own r in (None :: r', n)
   end.
 (* do_join: an un-aliased Table that is already among the base tables (FROM items / UPDATE target) gets the first
-   free numbered alias name2, name3, ... (with respect to the names of the FROM items, the UPDATE target, the WITH
-   queries and the joins made so far) written onto it; an un-aliased sub-query or set operation is tagged sq<own>.
+   free numbered alias name2, name3, ... (with respect to the names of the FROM items, the UPDATE target and the joins
+   made so far; not the WITH queries: with_() may be called before or after the join) written onto it; an un-aliased sub-query or set operation is tagged sq<own>.
    [taken]: the names in use so far. *)
 Fixpoint first_free_aux (nm : string) (taken : list string) (fuel n : nat) : string :=
   let cand := nm ++ nat_to_string n in
@@ -340,7 +340,7 @@ with rquery (kin : kctx) (walias subquery : bool) (ali : option string) (x : que
   | QSel c withs distinct selects from joins wheres havings groupbys orderbys l o fu _ =>
       let k := defaults c kin in
       let (fnames, n1) := name_from sub_count 0 from in
-      let (jnames, _) := name_joins (base_tables from) (src_names from fnames ++ map fst withs) n1 joins in
+      let (jnames, _) := name_joins (base_tables from) (src_names from fnames) n1 joins in
       let srcs := (src_refs from fnames ++ src_refs (map (fun j => snd (fst j)) joins) jnames)%list in
       let in_scope (tb : tref) := existsb (tref_eqb tb) srcs in
       let foreign := existsb (fun o => match o with Some tb => negb (in_scope (resolve_tref srcs tb)) | None => false end)
